@@ -127,6 +127,33 @@ Definition expected_proof_size (n : N) : N := 2720 + 2272 * n.
 Definition proof_ok (bv : N * N) (n_actions : N) (p : bytes) : bool :=
   (snd bv =? 1) || (nlen p =? expected_proof_size n_actions).
 
+
+(* ---------------------------------------------------------------------------------------- *)
+(** * Value types: numbers ([N]) and byte strings, nested in wire order *)
+Definition txin_t : Type := (bytes * N) * (bytes * N).            (* (prevout hash, n), (scriptSig, sequence) *)
+Definition txout_t : Type := N * bytes.                            (* value, scriptPubKey *)
+Definition transparent_t : Type := list txin_t * list txout_t.
+Definition spend4_t : Type := bytes * (bytes * (bytes * (bytes * (bytes * bytes)))).   (* cv anchor nf rk proof sig *)
+Definition output4_t : Type := bytes * (bytes * (bytes * (bytes * (bytes * bytes)))).  (* cv cmu epk enc out proof *)
+Definition sapling4_t : Type := N * (list spend4_t * list output4_t).                  (* valueBalance spends outputs *)
+Definition js_t : Type :=
+  N * (N * (bytes * (list bytes * (list bytes * (bytes * (bytes * (list bytes * (bytes * list bytes)))))))).
+Definition sprout_t : Type := list js_t * option (bytes * bytes).  (* joinsplits, (pubkey, sig) *)
+Definition legacy_t : Type :=
+  transparent_t * (N * (option N * (option sapling4_t * (option sprout_t * option bytes)))).
+Definition spend5_t : Type := bytes * (bytes * bytes).
+Definition output5_t : Type := bytes * (bytes * (bytes * (bytes * bytes))).
+Definition sapling5_t : Type :=
+  (list spend5_t * list output5_t)
+  * (option N * (option bytes * (list bytes * (list bytes * (list bytes * option bytes))))).
+Definition action_t : Type := bytes * (bytes * (bytes * (bytes * (bytes * (bytes * bytes))))).
+Definition orchard_rest_t : Type := N * (N * (bytes * (bytes * (list bytes * bytes)))).  (* flags vb anchor proof sigs bsig *)
+Definition orchard_t : Type := list action_t * option orchard_rest_t.
+Definition hdrfrag_t : Type := N * (N * N).                        (* branch id, lock_time, expiry_height *)
+Definition v5_t : Type := hdrfrag_t * (transparent_t * (sapling5_t * orchard_t)).
+Definition v6_t : Type := hdrfrag_t * (transparent_t * (sapling5_t * (orchard_t * orchard_t))).
+Definition body_t : Type := legacy_t + (v5_t + v6_t).
+
 (* ---------------------------------------------------------------------------------------- *)
 Section Tx.
   Variable valid : N -> bytes -> bool.
@@ -136,44 +163,44 @@ Section Tx.
   (** ** Transparent *)
   Definition c_outpoint := c_pair (c_fixed 32) c_u32le.
   Definition c_script := c_bytevec MX.
-  Definition c_txin := c_pair c_outpoint (c_pair c_script c_u32le).
-  Definition c_txout := c_pair c_amount c_script.
-  Definition c_transparent := c_pair (c_vec MX c_txin) (c_vec MX c_txout).
+  Definition c_txin : codec txin_t := c_pair c_outpoint (c_pair c_script c_u32le).
+  Definition c_txout : codec txout_t := c_pair c_amount c_script.
+  Definition c_transparent : codec transparent_t := c_pair (c_vec MX c_txin) (c_vec MX c_txout).
 
   (** ** Sapling, v4 layout: valueBalance, spends, outputs (binding signature at the very end) *)
-  Definition c_spend4 :=
+  Definition c_spend4 : codec spend4_t :=
     c_pair (c_blob K_SAP_CV) (c_pair (c_blob K_JUB_BASE) (c_pair (c_fixed 32)
       (c_pair (c_blob K_SAP_RK) (c_pair (c_fixed groth) (c_fixed 64))))).
-  Definition c_output4 :=
+  Definition c_output4 : codec output4_t :=
     c_pair (c_blob K_SAP_CV) (c_pair (c_blob K_SAP_CMU) (c_pair (c_fixed 32)
       (c_pair (c_fixed enc_ct) (c_pair (c_fixed out_ct) (c_fixed groth))))).
   (** [read_v4]: with no spends and no outputs the bundle is dropped, and [write_v4] then
       writes a zero valueBalance; the reader insists on that zero (see SAPLING4_ZERO_VB below). *)
-  Definition sap4_shape (p : N * (list (ty c_spend4) * list (ty c_output4))) : bool :=
+  Definition sap4_shape (p : sapling4_t) : bool :=
     negb (is_nil (fst (snd p)) && is_nil (snd (snd p))) || (fst p =? 0).
-  Definition c_sapling4_raw := c_pair c_balance (c_pair (c_vec MX c_spend4) (c_vec MX c_output4)).
-  Definition sap4_nonempty (o : option (ty c_sapling4_raw)) : bool :=
+  Definition c_sapling4_raw : codec sapling4_t := c_pair c_balance (c_pair (c_vec MX c_spend4) (c_vec MX c_output4)).
+  Definition sap4_nonempty (o : option sapling4_t) : bool :=
     match o with
     | Some (_, (ss, os)) => negb (is_nil ss && is_nil os)
     | None => false
     end.
 
   (** ** Sprout JoinSplits *)
-  Definition c_js (use_groth : bool) :=
+  Definition c_js (use_groth : bool) : codec js_t :=
     c_pair c_amount (c_pair c_amount (c_pair (c_fixed 32) (c_pair (c_rep (c_fixed 32) 2)
       (c_pair (c_rep (c_fixed 32) 2) (c_pair (c_fixed 32) (c_pair (c_fixed 32)
         (c_pair (c_rep (c_fixed 32) 2) (c_pair (c_fixed (if use_groth then groth else phgr))
           (c_rep (c_fixed 601) 2))))))))).
-  Definition c_sprout (use_groth : bool) :=
+  Definition c_sprout (use_groth : bool) : codec sprout_t :=
     c_dep (c_vec MX (c_js use_groth))
           (fun js => c_opt (negb (is_nil js)) (c_pair (c_fixed 32) (c_fixed 64))).
 
   (** ** Sapling, v5 layout *)
-  Definition c_spend5 := c_pair (c_blob K_SAP_CV) (c_pair (c_fixed 32) (c_blob K_SAP_RK)).
-  Definition c_output5 :=
+  Definition c_spend5 : codec spend5_t := c_pair (c_blob K_SAP_CV) (c_pair (c_fixed 32) (c_blob K_SAP_RK)).
+  Definition c_output5 : codec output5_t :=
     c_pair (c_blob K_SAP_CV) (c_pair (c_blob K_SAP_CMU) (c_pair (c_fixed 32)
       (c_pair (c_fixed enc_ct) (c_fixed out_ct)))).
-  Definition c_sapling5 :=
+  Definition c_sapling5 : codec sapling5_t :=
     c_dep (c_pair (c_vec MX c_spend5) (c_vec MX c_output5))
           (fun so =>
              let ns := length (fst so) in
@@ -186,15 +213,15 @@ Section Tx.
                      (c_pair (c_rep (c_fixed groth) no) (c_opt any (c_fixed 64))))))).
 
   (** ** Orchard-shaped bundles (Orchard and Ironwood slots) *)
-  Definition c_action :=
+  Definition c_action : codec action_t :=
     c_pair (c_blob K_ORC_CV) (c_pair (c_blob K_ORC_NF) (c_pair (c_blob K_ORC_RK)
       (c_pair (c_blob K_ORC_CMX) (c_pair (c_blob K_ORC_EPK) (c_pair (c_fixed enc_ct) (c_fixed out_ct)))))).
-  Definition c_orchard_rest (bv : N * N) (n : nat) :=
+  Definition c_orchard_rest (bv : N * N) (n : nat) : codec orchard_rest_t :=
     c_pair (c_refine c_u8 (flags_ok bv))
       (c_pair c_balance (c_pair (c_blob K_ORC_ANCHOR)
         (c_pair (c_refine (c_bytevec MX) (proof_ok bv (N.of_nat n)))
           (c_pair (c_rep (c_fixed 64) n) (c_fixed 64))))).
-  Definition c_orchard (bv : option (N * N)) :=
+  Definition c_orchard (bv : option (N * N)) : codec orchard_t :=
     c_dep (c_vec MX c_action)
           (fun acts => c_opt (negb (is_nil acts))
                          (match bv with
@@ -203,7 +230,7 @@ Section Tx.
                           end)).
 
   (** ** Bodies *)
-  Definition c_legacy (v : txv) :=
+  Definition c_legacy (v : txv) : codec legacy_t :=
     c_pair c_transparent
       (c_pair c_u32le
         (c_pair (c_opt (has_overwinter v) c_u32le)
@@ -212,24 +239,20 @@ Section Tx.
                     c_pair (c_opt (has_sprout v) (c_sprout (has_sapling v)))
                            (c_opt (sap4_nonempty sap) (c_fixed 64)))))).
 
-  Definition c_hdrfrag := c_pair (c_refine c_u32le is_branch) (c_pair c_u32le c_u32le).
+  Definition c_hdrfrag : codec hdrfrag_t := c_pair (c_refine c_u32le is_branch) (c_pair c_u32le c_u32le).
 
-  Definition c_v5 :=
+  Definition c_v5 : codec v5_t :=
     c_dep c_hdrfrag
           (fun h => c_pair c_transparent
                       (c_pair c_sapling5 (c_orchard (bundle_version (fst h) 0)))).
 
-  Definition c_v6 :=
+  Definition c_v6 : codec v6_t :=
     c_dep c_hdrfrag
           (fun h => c_pair c_transparent
                       (c_pair c_sapling5
                         (c_pair (c_orchard (bundle_version (fst h) 0))
                                 (c_orchard (bundle_version (fst h) 1))))).
 
-  Definition legacy_t : Type := ty (c_legacy V4).
-  Definition v5_t : Type := ty c_v5.
-  Definition v6_t : Type := ty c_v6.
-  Definition body_t : Type := legacy_t + (v5_t + v6_t).
 
   Definition c_body (v : txv) : codec body_t :=
     match v with
@@ -244,7 +267,7 @@ End Tx.
 
 (** The value types do not depend on the validity predicate. *)
 Definition novalid : N -> bytes -> bool := fun _ _ => true.
-Definition tx_t : Type := ty (c_tx novalid).
+Definition tx_t : Type := txv * body_t.
 
 (** * Block header: 140 fixed bytes and the CompactSize-prefixed Equihash solution *)
 Definition c_header :=
@@ -278,4 +301,4 @@ Definition legacy_txid (H : bytes -> bytes) (valid : N -> bytes -> bool) (t : tx
 Definition header_hash (H : bytes -> bytes) (h : header_t) : bytes := H (header_write h).
 
 (** * Amount fields of a decoded transaction (for [amount_fields_in_range]) *)
-Definition txout_values (tp : ty c_transparent) : list N := map fst (snd tp).
+Definition txout_values (tp : transparent_t) : list N := map fst (snd tp).
